@@ -118,11 +118,21 @@ class Interp:
         return obj, off
     def concretize(self, e):
         if not is_sym(e): return e
+        hit = self.ctx.concretized.get(e.get_id())
+        if hit is not None:
+            return hit[1]
+        v = self._concretize(e)
+        self.ctx.concretized[e.get_id()] = (e, v)
+        return v
+    def _concretize(self, e):
         while True:
-            r, m = self.ctx.solve([], 20000, full=True)
-            self.nqueries += 1
-            if r != z3.sat:
-                raise PathAbort()
+            m = self.ctx.model
+            if m is None:
+                r, m = self.ctx.solve([], 20000, full=True)
+                self.nqueries += 1
+                if r != z3.sat:
+                    raise PathAbort()
+                self.ctx.model = m
             v = m.eval(e, model_completion=True).as_long()
             if self.ctx.decide(e == v):
                 return v
@@ -235,7 +245,10 @@ class Interp:
             return z3.ToReal(v) if is_sym(v) else v
         if op == 'fptosi':
             m = re.match(r'fptosi \S+ (\S+) to', s); v = V(m.group(1))
-            if is_sym(v): return z3.If(v >= 0, z3.ToInt(v), -z3.ToInt(-v))
+            if is_sym(v):
+                # pin the integer on this path (forks over its possible values): everything computed from it
+                # - levels, indices, offsets - is then concrete
+                return self.concretize(z3.If(v >= 0, z3.ToInt(v), -z3.ToInt(-v)))
             return int(v)
         if op == 'alloca':
             return self.mem.alloc(8, 'alloca')
@@ -285,9 +298,18 @@ class Interp:
         if fn in ('printf',): return 0
         if fn == 'exit': raise Violation("exit() called")
         a = [self.fl(x) for x in args]
-        if fn.startswith('llvm.minnum'): return self.ite(a[0] <= a[1], a[0], a[1])
-        if fn.startswith('llvm.maxnum'): return self.ite(a[0] >= a[1], a[0], a[1])
-        if fn.startswith('llvm.fabs'): return self.ite(a[0] >= 0, a[0], -a[0])
+        # min / max of symbolic operands become a fresh variable with its defining constraints (r >= a, r >= b,
+        # r == a or r == b): nested if-then-else chains for the running extrema of the spectrum made every later
+        # query cost 0.3 s; forking on the comparison instead multiplies the paths by the orderings of the bins
+        if fn.startswith('llvm.minnum') or fn.startswith('llvm.maxnum'):
+            x, y = a[0], a[1]
+            mx = fn.startswith('llvm.maxnum')
+            if not is_sym(x) and not is_sym(y):
+                return (max if mx else min)(x, y)
+            r = self.ctx.fresh("ext")
+            self.ctx.assume(z3.And(r >= x, r >= y, z3.Or(r == x, r == y)) if mx else z3.And(r <= x, r <= y, z3.Or(r == x, r == y)), defines=r)
+            return r
+        if fn.startswith('llvm.fabs'): return self.ite(a[0] >= 0, a[0], -a[0])   # flat term, no fork
         if fn.startswith('llvm.fmuladd'): return a[0] * a[1] + a[2]
         if fn.startswith('llvm.round'):
             x = a[0]
